@@ -4,6 +4,7 @@ import (
 	"bytes"
 	"fmt"
 	"reflect"
+	"time"
 	"unsafe"
 
 	"github.com/philpearl/plenc/plenccodec"
@@ -322,7 +323,98 @@ func c05PtrPtr(c *core.Ctx, idx int) {
 	}
 }
 
+// c05FailedEncodes: an encode that fails half-way (a JSON value of a type the JSON codecs do not
+// know, met after part of the value has been written into the caller's buffer) must leave nothing
+// behind: the encodes that follow it on the instance still obey the laws and give the documented
+// bytes (round 11: q05).
+func c05FailedEncodes(c *core.Ctx, idx int) {
+	rec := c.Rec
+	r := c.Rand(idx)
+	cfg := instCfgs()[idx%4]
+	p := instNew(cfg)
+	name := cfgName(cfg)
+	holder := structOf(sf("A", tInt, `plenc:"1"`), sf("J", model.JSONMapT, `plenc:"2"`), sf("L", model.JSONArrayT, `plenc:"3"`), sf("Z", tString, `plenc:"4"`))
+	typs := []reflect.Type{model.JSONMapT, model.JSONArrayT, holder, reflect.MapOf(tString, holder)}
+	bad := []any{int64(1), int32(2), float32(1.5), uint(3), struct{}{}, []string{"x"}, map[string]int{"a": 1}, (*int)(nil), complex(1, 2), uint8(7), [2]int{1, 2}, make(chan int), time.Unix(5, 0)}
+	buf := make([]byte, 0, 1<<14)
+	for round := 0; round < 10; round++ {
+		// the value that cannot be encoded: good entries around one value of an unknown type, at some depth
+		vg := &gen.VG{R: r, C: cfg, Budget: 60}
+		poison := map[string]any{}
+		for i, n := 0, 1+r.IntN(8); i < n; i++ {
+			poison[fmt.Sprintf("stale-%d-%d", round, i)] = vg.JSON(2, 0)
+		}
+		b := bad[r.IntN(len(bad))]
+		switch r.IntN(4) {
+		case 0:
+			poison["zz-bad"] = b
+		case 1:
+			poison["in-array"] = []any{"first", 2, b, "last"}
+		case 2:
+			poison["in-map"] = map[string]any{"a": 1, "m": b}
+		default:
+			poison[""] = b
+		}
+		var pv any = &poison
+		switch r.IntN(3) {
+		case 1:
+			arr := []any{"x", poison, nil}
+			pv = &arr
+		case 2:
+			h := reflect.New(holder)
+			h.Elem().Field(0).SetInt(5)
+			h.Elem().Field(1).Set(reflect.ValueOf(poison))
+			pv = h.Interface()
+		}
+		var perr error
+		dst := buf[:0]
+		if r.IntN(5) == 0 {
+			dst = nil
+		}
+		pn := core.Guard(func() { _, perr = p.Marshal(dst, pv) })
+		if pn != "" || perr != nil {
+			rec.Count("failed_encodes", 1) // (how it fails is not this property's business)
+		}
+		for _, t := range typs {
+			if cfg.ProtoArrays && t.Kind() == reflect.Slice {
+				continue
+			}
+			tc := &tcase{cfg: cfg, name: name, p: p, typ: t}
+			v := vg.Value(t, "")
+			codec, err := p.CodecForType(t)
+			if err != nil {
+				rec.Violation("valid-type-rejected", fmt.Sprintf("[%s] %v\n  type %s", name, err, typeString(t)), nil)
+				return
+			}
+			codecLaws(c, tc, subType{t, ""}, codec, v)
+			out := buf[:0]
+			if r.IntN(2) == 0 {
+				out = nil
+			}
+			got, err, gpn := marshal(p, out, ptrTo(v))
+			rec.Eval(1)
+			want := cfg.Encode(v)
+			var cg, cw []byte
+			var cerr error
+			if len(got) != 0 || len(want) != 0 { // (a value that is left out has nothing to walk)
+				cg, cerr = cfg.Canon(t, "", got)
+				cw, _ = cfg.Canon(t, "", want)
+			}
+			if err != nil || gpn != "" || cerr != nil || !bytes.Equal(cg, cw) {
+				rec.Violation("walk", fmt.Sprintf("after an encode that failed half-way on the same instance, Marshal gives bytes that are not the documented encoding [%s]: %v %s %v\n  type %s\n  value %s\n  got  %s\n  want %s", name, err, trunc1(gpn), cerr, typeString(t), model.Show(v), hexHead(got), hexHead(want)), caseExtra(tc, v, got))
+				return
+			}
+			rec.Count("encodes_after_failed_encode", 1)
+		}
+	}
+	rec.NonTrivial(core.Hash64("failed-encodes", fmt.Sprint(idx)))
+}
+
 func c05Case(c *core.Ctx, idx int) {
+	if idx%23 == 11 {
+		c05FailedEncodes(c, idx)
+		return
+	}
 	if idx%19 == 8 {
 		c05PtrPtr(c, idx)
 		return
